@@ -44,6 +44,33 @@ static GLOBAL: Counting = Counting;
 static CUR_INDEX: AtomicU64 = AtomicU64::new(u64::MAX);
 static CUR_START: AtomicU64 = AtomicU64::new(0);
 
+/// Watchdog for the commands that feed one input (or history) after the other: an input that runs for more than `limit_ms`
+/// is reported on stderr (`HX-TIMEOUT index=N`) and the process exits with status 3; the orchestrator records the time-out
+/// as data and resumes after that input (`--skip N+1`).
+pub fn wd_start(limit_ms: u64) -> std::time::Instant {
+    let t0 = std::time::Instant::now();
+    std::thread::spawn(move || loop {
+        std::thread::sleep(std::time::Duration::from_millis(100));
+        let idx = CUR_INDEX.load(Ordering::SeqCst);
+        if idx != u64::MAX && now_ms(t0).saturating_sub(CUR_START.load(Ordering::SeqCst)) > limit_ms {
+            eprintln!("HX-TIMEOUT index={idx}");
+            std::process::exit(3);
+        }
+    });
+    t0
+}
+pub fn wd_begin(t0: std::time::Instant, i: u64) {
+    CUR_START.store(now_ms(t0), Ordering::SeqCst);
+    CUR_INDEX.store(i, Ordering::SeqCst);
+}
+pub fn wd_end() {
+    CUR_INDEX.store(u64::MAX, Ordering::SeqCst);
+}
+pub fn skip_arg() -> u64 {
+    let args: Vec<String> = std::env::args().collect();
+    args.iter().position(|a| a == "--skip").and_then(|i| args.get(i + 1)).and_then(|s| s.parse().ok()).unwrap_or(0)
+}
+
 fn now_ms(t0: std::time::Instant) -> u64 {
     t0.elapsed().as_millis() as u64
 }
